@@ -445,6 +445,19 @@ def evaluate(r, clauses=None):
                 late_text = late_text + c
         plist = call['plist']
         exact = call['api'] == 'exact'
+        # the patterns actually searched must be the ones this call was given (not, say, a list cached from an earlier call)
+        opk = call['op']
+        if isinstance(opk, int) and 0 <= opk < len(r.scn['ops']) and r.scn['ops'][opk].get('op') == 'expect':
+            asked = []
+            for pp in r.scn['ops'][opk].get('pats', []):
+                asked.append('EOF' if pp['t'] == 'EOF' else 'TIMEOUT' if pp['t'] == 'TIMEOUT' else r.conv(pp['p']))
+            used = []
+            for q in plist:
+                used.append('EOF' if q is EOF else 'TIMEOUT' if q is TIMEOUT else (q.pattern if hasattr(q, 'pattern') else q))
+            if used != asked:
+                if V('C02.pattern_list', 'the call searched for %r, it was asked to search for %r' % (used, asked), call):
+                    return out
+                return out
         W = call['sws']
         if W == -1:
             W = call['inst_sws']
